@@ -238,7 +238,34 @@ func newRes() resT { return resT{Err: "ok", Recs: []viewT{}, Keys: [][]int{}, Va
 
 // ------------------------------------------------------------------ worker: one history
 
-var db *database.Interface
+var (
+	db  *database.Interface
+	sub *database.Subscription
+)
+
+// drainFeed returns what the subscription to the database "config" received since the last call (the
+// package notifies subscribers synchronously from the goroutine that makes the change).
+func drainFeed() (views []viewT, err error) {
+	views = []viewT{}
+	for {
+		select {
+		case r, ok := <-sub.Feed:
+			if !ok {
+				return views, errors.New("subscription feed closed")
+			}
+			if builtin[r.DatabaseKey()] {
+				continue
+			}
+			v, _, verr := viewOf(r)
+			if verr != nil {
+				return views, verr
+			}
+			views = append(views, v)
+		default:
+			return views, nil
+		}
+	}
+}
 
 func errClass(err error) string {
 	switch {
@@ -644,6 +671,12 @@ func workerMain(dir string) {
 		runMaps(s, emit)
 		os.Exit(0)
 	}
+	var serr error
+	sub, serr = db.Subscribe(query.New("config:"))
+	if serr != nil {
+		emit(map[string]any{"e": "setup-failed", "msg": "subscribe: " + serr.Error()})
+		os.Exit(3)
+	}
 	emit(map[string]any{"e": "new", "tokens": tokens})
 	for _, op := range s.Steps {
 		if op.M == nil {
@@ -654,7 +687,11 @@ func workerMain(dir string) {
 		}
 		emit(map[string]any{"e": "try", "op": op})
 		res, wt := execOp(op)
-		ev := map[string]any{"e": "op", "op": op, "res": res}
+		feed, ferr := drainFeed()
+		if ferr != nil && res.Panic == "" {
+			res.Panic = "feed: " + ferr.Error()
+		}
+		ev := map[string]any{"e": "op", "op": op, "res": res, "feed": feed}
 		if res.Panic == "" {
 			func() {
 				defer func() {
